@@ -143,8 +143,27 @@ def recheck(name, pids):
     return 0
 
 
+def table():
+    """markdown table of the recorded seeded changes"""
+    rows = ["| seeded change | property | site | needs to manifest | caught by (quick checks) |", "|---|---|---|---|---|"]
+    d = os.path.join(VERIF, "seeded")
+    for name in sorted(os.listdir(d)):
+        m = json.load(open(os.path.join(d, name, "meta.json")))
+        ran = m.get("checks_run", {})
+        caught = ", ".join("%s (%s)" % (pid, (r.get("detail") or ["?"])[0].replace("clause:", "").strip()[:40] if r.get("detail") else pid)
+                           for pid, r in sorted(ran.items()) if r["exit"] == 1)
+        missed = ", ".join(pid for pid, r in sorted(ran.items()) if r["exit"] != 1)
+        needs = str(m.get("needs_to_manifest", "")).replace("|", "/").replace("\n", " ")[:220]
+        rows.append("| %s | %s | %s | %s | %s%s |" % (name, m.get("property", "?"), str(m.get("site", "?")).replace("|", "/")[:60], needs,
+                                                     caught or "none", (" — not caught by: " + missed) if missed else ""))
+    print("\n".join(rows))
+    return 0
+
+
 if __name__ == "__main__":
     cmd = sys.argv[1]
+    if cmd == "table":
+        sys.exit(table())
     if cmd == "recheck":
         sys.exit(recheck(sys.argv[2], sys.argv[3:]))
     if cmd == "keep":
